@@ -160,45 +160,42 @@ Definition vg_tail (g : vg) : list Z :=
 
 Definition vg_encode (g : vg) : list Z := vg_body g ++ vg_tail g.
 
-(* ---- hblocks.c HLgetdatainfo (after the fix: both loops test info_count) ---------------------------- *)
-(** [cap]: None = NULL arrays (count only); Some n = arrays of n entries.
+(* ---- hblocks.c HLgetdatainfo (after the fix: commits: both loops test info_count; slots never written are
+        skipped, not stopped at, and advance the position) ------------------------------------------------ *)
+(** [cap]: None = NULL arrays (count only); Some n = arrays of n entries (info_count is unsigned in C).
     [blk r] = (Hoffset, Hlength) of block (DFTAG_LINKED, r), None when the lookup fails.
-    state = (num_data_blocks, accum_length, entries written so far) *)
+    state = (num_data_blocks, accum_length, entries written so far); [isf] = the C variable first_block *)
 Definition hl_full (cap : option Z) (num : Z) : bool :=
   match cap with None => false | Some n => n <=? num end.
 
-Fixpoint hl_table (blk : Z -> option (Z * Z)) (refs : list Z) (next_ref blen total : Z) (cap : option Z)
-                  (st : Z * Z * list (Z * Z)) : option (Z * Z * list (Z * Z)) :=
+Fixpoint hl_table (blk : Z -> option (Z * Z)) (refs : list Z) (blen total : Z) (cap : option Z) (isf : bool)
+                  (st : Z * Z * list (Z * Z)) : option (Z * Z * list (Z * Z) * bool) :=
   match refs with
-  | [] => Some st
+  | [] => Some (st, isf)
   | r :: t =>
     let '(num, accum, out) := st in
-    if (r =? 0) || hl_full cap num then Some st else
-    match cap with
-    | None => hl_table blk t next_ref blen total cap (num + 1, accum, out)
-    | Some _ =>
-      match blk r with
-      | None => None
-      | Some (o, n) =>
-        let more_here := match t with [] => false | r' :: _ => negb (r' =? 0) end in
-        let last := (next_ref =? 0) && negb more_here in
-        let accum' := if last then accum else accum + n in
-        let n' := if last && (n =? blen) then total - accum else n in
-        hl_table blk t next_ref blen total cap (num + 1, accum', out ++ [(o, n')])
-      end
+    if negb (accum <? total) || hl_full cap num then Some (st, isf) else
+    if r =? 0 then hl_table blk t blen total cap false (num, accum + blen, out) else
+    match blk r with
+    | None => None
+    | Some (o, len) =>
+      let slot := if isf then len else blen in
+      let used := Z.min (Z.min slot len) (total - accum) in
+      hl_table blk t blen total cap false
+               (num + 1, accum + slot, match cap with None => out | Some _ => out ++ [(o, used)] end)
     end
   end.
 
 Fixpoint hl_tables (blk : Z -> option (Z * Z)) (tables : list (Z * list Z)) (blen total : Z) (cap : option Z)
-                   (st : Z * Z * list (Z * Z)) : option (Z * Z * list (Z * Z)) :=
+                   (isf : bool) (st : Z * Z * list (Z * Z)) : option (Z * Z * list (Z * Z)) :=
   match tables with
   | [] => Some st
   | (nx, refs) :: more =>
     let '(num, _, _) := st in
     if hl_full cap num then Some st else
-    match hl_table blk refs nx blen total cap st with
+    match hl_table blk refs blen total cap isf st with
     | None => None
-    | Some st' => if nx =? 0 then Some st' else hl_tables blk more blen total cap st'
+    | Some (st', isf') => if nx =? 0 then Some st' else hl_tables blk more blen total cap isf' st'
     end
   end.
 
@@ -209,7 +206,7 @@ Definition hl_getdatainfo (blk : Z -> option (Z * Z)) (tables : list (Z * list Z
   | Some 0 => None                                   (* info_count == 0 with non-NULL arrays: DFE_ARGS *)
   | _ => match tables with
          | [] => None                                (* HLIgetlink of the first table failed *)
-         | _ => match hl_tables blk tables blen total cap (0, 0, []) with
+         | _ => match hl_tables blk tables blen total cap true (0, 0, []) with
                 | Some (num, _, out) => Some (num, out)
                 | None => None
                 end
